@@ -11,7 +11,7 @@
    "growth-during-main-copy" found by checks/C08.py), and live_unaffected. *)
 Require Import ZArith List Bool. Require Import IW.Lib.CInt IW.Gen.Facts.
 Require Import IW.WAL.Rec IW.WAL.Rec_proofs IW.WAL.Scan IW.WAL.Scan_proofs IW.WAL.Replay IW.WAL.Replay_proofs
-  IW.WAL.Backup IW.WAL.Backup_proofs.
+  IW.WAL.Proto IW.WAL.Backup IW.WAL.Backup_proofs.
 Import ListNotations. Local Open Scope Z_scope.
 
 (* a one-page main file with the two magic numbers the opener looks for, and a log with a reset mark *)
@@ -60,3 +60,24 @@ Example C08_open_image_is_savepoint_state_ex :
   fst (fst r) = VOk /\ snd r = [ASet 65 100 4; AWrite 102 [1;2;3]] /\
   firstn 6 (skipn 100 (snd (fst r))) = [65;65;1;2;3;0] /\ lenB (snd (fst r)) = 4096.
 Proof. vm_compute. repeat split; reflexivity. Qed.
+
+(* ---- the stages (Backup.backup_run; tied to real runs byte for byte by checks/C08.py) *)
+(* whatever writers do while the backup holds no lock, the result is an image: the main file as it was after the
+   stage-2 checkpoint followed by the log as it is after the stage-5 savepoint *)
+Theorem C08_backup_run_is_image : forall c s0 ts2 ts5 evM evA,
+  exists main log live, backup_run c s0 ts2 ts5 evM evA = (mk_image main log, live) /\
+    main = p_disk (fst (checkpoint c (set_stage s0 BKP_WAL_CLEANUP) false ts2)) /\ log = p_log live /\ p_stage live = 0.
+Proof. exact backup_run_is_image. Qed.
+Print Assumptions C08_backup_run_is_image.
+Example C08_backup_run_is_image_ex :
+  lenB (fst (backup_run rm_cfg rm_s0 5 9 [] rm_evA)) = 4096 + 106 + 12.
+Proof. vm_compute. reflexivity. Qed.
+
+(* a checkpoint made by a writer while the backup is in stage WAL_COPY1 puts a reset mark into the image's log; the
+   records before the mark reached only the LIVE main file, so the image has to be replayed from the start of its
+   log (recover_mode 2): replaying it from the mark (recover_mode 1 semantics) loses them.  Summary of a run of the
+   stage model: (mode 2: rc, byte 100, byte 101), (mode 1: ...), (live file bytes 100, 101, mark pending) *)
+Theorem C08_image_replay_from_mark_refuted :
+  rm_summary = Some ((VOk, 1, 2), (VOk, 0, 2), (1, 0, true)).
+Proof. exact image_replay_from_mark_refuted. Qed.
+Print Assumptions C08_image_replay_from_mark_refuted.
